@@ -1266,10 +1266,15 @@ std::vector<uint8_t> MDSDRV_Converter::convert_track(const std::vector<MDSDRV_Ev
 					last_note = 0xffff;
 					break;
 				case MDSDRV_Event::LPB: // loop break
+					// a 'cmd' platform command can put a loop command anywhere
+					if(loop_break_address.empty())
+						throw InputError(nullptr, "MDSDRV: loop break without a loop start in the sequence data");
 					// set the break address
 					loop_break_address.top() = track_data.size();
 					break;
 				case MDSDRV_Event::LPF: // loop finish
+					if(loop_break_address.empty())
+						throw InputError(nullptr, "MDSDRV: loop end without a loop start in the sequence data");
 					track_data.push_back(type);
 					track_data.push_back(arg);
 					// insert loop break command
@@ -1453,11 +1458,15 @@ std::vector<uint8_t> MDSDRV_Converter::convert_macro_track(const std::vector<MDS
 					loop_start_address.push(track_data.size());
 					break;
 				case MDSDRV_Event::LPB: // loop break
+					if(loop_break_address.empty())
+						throw InputError(nullptr, "MDSDRV: loop break without a loop start in the sequence data");
 					track_data.push_back(0x85);
 					track_data.push_back(0); //to be filled in
 					loop_break_address.top() = track_data.size();
 					break;
 				case MDSDRV_Event::LPF: // loop finish
+					if(loop_break_address.empty())
+						throw InputError(nullptr, "MDSDRV: loop end without a loop start in the sequence data");
 					track_data.push_back(0x86);
 					track_data.push_back((loop_start_address.top() - (track_data.size() + 1))/2);
 					// insert loop break command
